@@ -8,12 +8,13 @@
    children's machines.  `ContractV false` is the weak reading of the last clause (False => single value afterwards);
    every class lemma only needs it of the children.
    Classes with a machine-checked contract: ConstantCostEdit, the component-wise sum (KeyValuePairEdit; XMLElementEdit,
-   DataClassEdit, PyObjEdit are the same combinator), repeat_until_tightened + FixedLengthSequenceEdit.
+   DataClassEdit, PyObjEdit are the same combinator), repeat_until_tightened + FixedLengthSequenceEdit, EditDistance
+   (StringEdit is a pure delegation to an EditDistance over constant children).
    Classes validated by trace only (holds_C04 on the implementation's recorded traces, no model):
    EditCollection / FixedKeyDictNodeEdit, WeightedBipartiteMatcher, Edge, MultiSetEdit, IterativeTighteningSearch,
    PossibleEdits. *)
 From Coq Require Import ZArith List Bool.
-Require Import GT.Data GT.MachineSpec GT.MachineModel GT.MachineProofs.
+Require Import GT.Data GT.EdEngine GT.ScriptModel GT.MachineSpec GT.MachineModel GT.MachineProofs.
 Import ListNotations.
 Open Scope Z_scope.
 
@@ -37,8 +38,28 @@ Theorem C04_fixed_len : forall k C l vs x, Forall2 (fun s v => ContractV k C s v
   ContractV true (fixedM C) (l, x) (zsum vs + x).
 Proof. exact fixed_contract. Qed.
 
+(* EditDistance as constructed by __init__ from the full remove / insert cost lists frc / fic, the trimmed prefix p and
+   suffix q and the matrix of child edits: if every child satisfies the (weak) contract with a non-negative lower
+   bound, and a lower right child that can still be tightened belongs to elements of positive remove + insert cost,
+   the edit satisfies the STRICT contract; its final value is the lower right cell of the final cost matrix
+   (EdEngine.matrix, the matrix of the big-step script model) over the children's final values. *)
+Theorem C04_edit_distance : forall C frc fic p q (kids : list (list (St C))),
+  let rc := middle p q frc in
+  let ic := middle p q fic in
+  (p + q <= length frc)%nat -> (p + q <= length fic)%nat ->
+  Forall (fun x => 0 <= x) frc -> Forall (fun x => 0 <= x) fic ->
+  length kids = length ic -> Forall (fun row => length row = length rc) kids ->
+  Forall (Forall (kid_ok C)) kids ->
+  ((1 <= length ic)%nat -> (1 <= length rc)%nat ->
+   forall x, nth_error (nth (length ic - 1) kids []) (length rc - 1) = Some x -> ~ zdefinitive (bnd C x) ->
+             0 < nth (length ic - 1) ic 0 + nth (length rc - 1) rc 0) ->
+  ContractV true (edM C) (ed_init frc fic p q kids)
+            (cc rc ic (map (map (finv C)) kids) (length ic) (length rc)).
+Proof. exact ed_init_contract. Qed.
+
 Print Assumptions C04_trace.
 Print Assumptions C04_terminates.
 Print Assumptions C04_const.
 Print Assumptions C04_sum.
 Print Assumptions C04_fixed_len.
+Print Assumptions C04_edit_distance.
